@@ -24,6 +24,7 @@ use crate::{
     LOG_FILE, LsmTree, LsmtkOptions, MANI_ROOT, SError, SST_FILE, TEMP_FILE, TEMP_ROOT, TRASH_ROOT,
     corruption, ensure_dir, logic_error, make_all_dirs, parse_log_file,
 };
+use crate::tree::SnapshotCursor;
 use memtable::MemTable;
 
 //////////////////////////////////////////// WriteBatch ////////////////////////////////////////////
@@ -480,6 +481,6 @@ impl KeyValueStore {
         let cursor = MergingCursor::new(cursors)?;
         let cursor = PruningCursor::new(cursor, timestamp)?;
         let cursor = BoundsCursor::new(cursor, start_bound, end_bound)?;
-        Ok(cursor)
+        Ok(SnapshotCursor::new(cursor, version))
     }
 }
